@@ -25,7 +25,8 @@ package notifier
 //                             the scripted fake lock and driven under the virtual clock -- minInterval, doEvaluations and
 //                             the set of known groups (storage replies) are all produced by the real code:
 //                               k <now>  clock := now; complete a pending Unlock() with nil, then the pending Lock() with nil
-//                               e        complete the pending Lock() with an error (and wait for the next Lock() call)
+//                               e        complete a pending Unlock() with nil, then the pending Lock() with an error (and
+//                                        wait for the next Lock() call)
 //                               x        Broadcast the expiry (connection stays up), wait for the Unlock() call
 //                               t <now>  clock := now, let the request loop iterate
 //                               r <now> <list>  group list refresh at clock now
@@ -890,6 +891,10 @@ func vCfg(f []string) (res string) {
 			}
 			out = append(out, o)
 		case "e":
+			if lock.unlockCalls.Load() > sentUnlock {
+				lock.unlockRes <- nil
+				sentUnlock++
+			}
 			if waitCall(&lock.lockCalls, sentLock, callWait) {
 				lock.lockRes <- vLockResult{err: errors.New("scripted lock failure")}
 				sentLock++
